@@ -317,6 +317,17 @@ pub fn gen_c03(rng: &mut Rng, tier: Tier) -> C03Plan {
         _ => gen_size(rng, class),
     };
     let (w, h) = if cfg.is_sorenson() && rng.chance(1, 25) { gen_fixed_sorenson_size(rng, tier == Tier::Thorough) } else { (w, h) };
+    // Rarely: a picture of more than 8192 macroblocks (thousands of macroblocks per row
+    // or per column, megasamples).  Kept cheap: DC-only intra picture, sparse P pictures.
+    let huge = rng.chance(1, if tier == Tier::Quick { 2500 } else { 400 });
+    let (w, h) = if huge {
+        cfg.density = 0;
+        cfg.mb_weights = [40, 2, 1, 1, 1, 0, 1];
+        cfg.stuff16 = 0;
+        *rng.pick(&[(2064u16, 1024u16), (65535, 33), (40, 65535), (4097, 513), (1025, 2050)])
+    } else {
+        (w, h)
+    };
     if w as u32 * h as u32 > 128 * 96 {
         cfg.density = cfg.density.min(1);
         cfg.mb_weights[0] += 12;
@@ -325,7 +336,7 @@ pub fn gen_c03(rng: &mut Rng, tier: Tier) -> C03Plan {
     let mut plan = C03Plan { note: String::new(), opts, pics: Vec::new(), steps: Vec::new() };
     let mut tr = rng.byte();
     let start_with_p = rng.chance(1, 16);
-    let chain = 1 + rng.usize(if tier == Tier::Quick { 4 } else { 8 });
+    let chain = if huge { 2 } else { 1 + rng.usize(if tier == Tier::Quick { 4 } else { 8 }) };
     let mut push_pic = |plan: &mut C03Plan, p: PlanPic| -> usize {
         plan.pics.push(p);
         plan.pics.len() - 1
